@@ -18,11 +18,12 @@ import Bnum.Drive.C17
 import Bnum.Drive.C18
 import Bnum.Drive.C19
 import Bnum.Drive.C20
+import Bnum.Drive.Prim
 namespace Bnum.Drive.All
 open Bnum.Drive
 def handlers : List Handler :=
   [C01.handle, C02.handle, C03.handle, C04.handle, C05.handle, C06.handle, C07.handle, C08.handle, C10.handle, C11.handle,
-   C12.handle, C14.handle, C15.handle, C16.handle, C17.handle, C18.handle, C19.handle, C20.handle]
+   C12.handle, C14.handle, C15.handle, C16.handle, C17.handle, C18.handle, C19.handle, C20.handle, PrimD.handle]
 /-- handlers that parse the raw token list themselves (the second token is not a configuration) -/
 def rawHandlers : List (String → List String → Option (String × String)) := [C09.handleRaw, C13.handleRaw]
 end Bnum.Drive.All
